@@ -196,8 +196,16 @@ func init() {
 
 func init() {
 	properties["C15"] = &propSpec{ID: "C15",
-		Quick:    tierSpec{Harnesses: []harnessSpec{{Func: gp + "internal/zzverif.VC15", Discover: 1, Reach: []string{"c15.accepted"}}}},
-		Thorough: tierSpec{Harnesses: []harnessSpec{{Func: gp + "internal/zzverif.VC15", Discover: 1, Reach: []string{"c15.accepted"}}}},
+		Quick: tierSpec{Harnesses: []harnessSpec{
+			{Func: gp + "internal/zzverif.VC15", Discover: 1, Reach: []string{"c15.accepted"}},
+			{Func: gp + "internal/zzverif.VC15Coff", Discover: 2, Reach: []string{"c15.coff.accepted"}},
+			{Func: gp + "internal/zzverif.VC15Sym", Discover: 3, Reach: []string{"c15.sym.accepted"}},
+		}},
+		Thorough: tierSpec{Harnesses: []harnessSpec{
+			{Func: gp + "internal/zzverif.VC15", Discover: 2, Reach: []string{"c15.accepted"}},
+			{Func: gp + "internal/zzverif.VC15Coff", Discover: 2, Reach: []string{"c15.coff.accepted"}},
+			{Func: gp + "internal/zzverif.VC15Sym", Discover: 4, Params: map[string]int{"two": 1}, Reach: []string{"c15.sym.accepted"}},
+		}},
 	}
 }
 
